@@ -92,6 +92,9 @@ outer:
 						for k := 0; k < nl; k++ {
 							art.set(fmt.Sprintf("%s_%02d", long, k), nFile(rr.bytes(40+k)))
 						}
+						// and names a few bytes short of NAME_MAX: no room for any suffix
+						art.set(strings.Repeat("M", 250), nFile(rr.bytes(33)))
+						art.set(strings.Repeat("N", 255), nFile(rr.bytes(34)))
 						art.sortEnts()
 					}
 					failing := shape == "failing" || shape == "wide-failing"
